@@ -75,7 +75,7 @@ def reference(prog, info, supplied, x):
     return obs, trace
 
 
-ROUTES = ["tooled+overlay", "partial+overlay", "oprobe", "probe-undef", "generic", "probe-ext", "ctx-probe", "stacked"]
+ROUTES = ["tooled+overlay", "partial+overlay", "oprobe", "probe-undef", "generic", "probe-ext", "ctx-probe", "stacked", "total"]
 
 
 def instrumented(prog, info, route, supplied, x, part):
@@ -122,6 +122,13 @@ def instrumented(prog, info, route, supplied, x, part):
                 p.subscribe(lambda ev: events.append({k: P.freeze(v) for k, v in ev.items()}))
                 p.__enter__()
                 active.append(p)
+        if route == "total":
+            # a total probe over every declared variable: a record needs every capture to have been bound
+            dv = [n for n, _ in declared_vars(info)]
+            p = probing(f"f(x, {', '.join(dv)})" if dv else "f(x)", env=env, raw=True)
+            p.subscribe(lambda ev: events.append({k: tuple(P.freeze(v) for v in c.values) for k, c in ev.items()}))
+            p.__enter__()
+            active.append(p)
         if route == "stacked":
             p = probing("f > x", env=env)
             p.__enter__()
@@ -265,7 +272,7 @@ def configs(prog, info, tier):
         if route == "probe-undef" and not has_undef:
             continue
         for sup in subsets:
-            if route in ("probe-undef", "generic", "probe-ext", "ctx-probe") and sup:
+            if route in ("probe-undef", "generic", "probe-ext", "ctx-probe", "total") and sup:
                 continue
             if route == "stacked" and (not sup or any(m != "const" for m in sup.values())):
                 continue
